@@ -7,7 +7,7 @@ Every random choice comes from one SplitMix64 state, so a trace is reproducible 
   own    operation whose (projected) output the property under check speaks about
 """
 
-GEN_VERSION = 10
+GEN_VERSION = 11
 
 MASK64 = (1 << 64) - 1
 
@@ -664,6 +664,25 @@ def gen_C19(t, n):
             t.emit("eq A B", "own")
             t.emit("entry B %s occ_insert %d" % (t.u.fmt(k), v), "own")
             t.emit("eq A B", "own")
+        elif c < 37:
+            # one operand is a proper initial segment of the other (in iteration order): never equal
+            top = "%0*x/%d" % ((t.w + 3) // 4, (1 << t.w) - 1, t.w)
+            if r.chance(50):
+                t.emit("copy A B", "own")
+                t.emit("insert %s %s %d" % (r.pick(["A", "B"]), top, t.v()), "own")
+                t.emit("eq A B", "own")
+                t.emit("remove %s %s" % (r.pick(["A", "B"]), top), "own")
+                t.emit("eq A B", "own")
+            else:
+                ks = [t.u.key() for _ in range(r.below(6))]
+                items = " ".join("%s=0" % t.u.fmt(k, host=False) for k in ks)
+                t.emit(" ".join(("collect S " + items).split()), "own")
+                t.emit(" ".join(("collect B " + items).split()), "own")
+                t.emit("seteq S B", "own")
+                t.emit("insert %s %s 0" % (r.pick(["S", "B"]), top), "own")
+                t.emit("seteq S B", "own")
+                t.emit("clear %s" % r.pick(["S", "B"]), "own")
+                t.emit("seteq S B", "own")
         elif c < 40:
             t.emit("collect_self A", "own")
         elif c < 50:
